@@ -194,7 +194,7 @@ def rand_jobs(seed, n, families, crashes=(0, 1), wfaults=0, rfaults=0, probes=0,
             r["maxparts"] = rng.choice([0, 1, 2, 3])
             scen["htlcs"] = []
         job = {"run": start_run + k, "scen": scen, "rand": r, "probes": probes, "tag": fam}
-        if (heights or derive) and not direct and rng.random() < 0.5:
+        if (heights or derive or freeze) and not direct and rng.random() < 0.5:
             # the height the lifecycle sees comes from the real BlockWatcher (start + notifications + polls)
             job["realblocks"] = True
             r["crashes"] = max(r["crashes"], rng.choice([0, 1]))
